@@ -257,6 +257,33 @@ def r_sibling(c):
                     f"(`{body[:60]}...` vs `{ref[:60]}...`)")
 
 
+def r_sibling_adv(c):
+    """the two advanced-index lowerings find the advanced indices, and the shape
+    they broadcast to, in the same way (they are copies of one another)"""
+    m = c.model
+    from pta.pat import alpha, find
+    names = ["map_contiguous_advanced_index", "map_non_contiguous_advanced_index"]
+    got = {}
+    for mn in names:
+        fd = m.resolve_method(TOIL, mn)[1]
+        a = find(fd, "$ia = tuple(($i for $i, $x in enumerate($ri) if $$cond))")
+        b = find(fd, "$shape = get_shape_after_broadcasting([$$elt for $j in $ia])")
+        if len(a) != 1 or len(b) != 1:
+            raise AnalysisError(f"anchor vanished: advanced-index set in {mn}")
+        got[mn] = (alpha(ast.unparse(a[0]["@node"])), alpha(ast.unparse(b[0]["@node"])),
+                   a[0]["@node"])
+    ref = got[names[0]]
+    for mn in names[1:]:
+        for k, what in ((0, "which indices count as advanced"),
+                        (1, "the shape the advanced indices broadcast to")):
+            c.check(got[mn][k] == ref[k], "R02-SIBLING", f"ToIndexLambdaMixin.{mn}",
+                    f"{what.replace(' ', '-')}-like-{names[0]}",
+                    m.loc(m.module_of(got[mn][2]), got[mn][2]),
+                    f"{mn} and {names[0]} compute {what} differently "
+                    f"(`{got[mn][k][:70]}` vs `{ref[k][:70]}`): one of the two sibling "
+                    "lowerings places the index arrays on the wrong output axes")
+
+
 def _loop_targets(iff):
     """names bound by the for loop whose body the if/elif chain of ``iff`` is in"""
     ch, p = iff, iff._parent
@@ -337,7 +364,7 @@ def r_domain(c):
 
 SPEC = Spec(
     prop="C02",
-    rules=[r_total, r_meta, r_consume, r_bind, r_sibling, r_domain],
+    rules=[r_total, r_meta, r_consume, r_bind, r_sibling, r_domain, r_sibling_adv],
     floors={"R02-TOTAL": 30, "R02-META": 70, "R02-CONSUME": 20, "R02-BIND": 14,
             "R02-DOMAIN": 3, "R02-SIBLING": 4},
     explanation=(
